@@ -139,8 +139,8 @@ def expDigits (bits prec : Nat) : List Nat × Int :=
   if m == 0 then (List.replicate (prec + 1) 0, 0) else
   let (num, den) := ratOf m e
   let e10 := ilog10 num den
-  let (n2, d2) := scale10 num den ((prec : Int) - e10)
-  let r := roundHalfEven n2 d2
+  let (n1, d1) := scale10 num den (-e10)          -- n1/d1 = |value| / 10^e10 ∈ [1, 10)
+  let r := roundHalfEven (n1 * 10 ^ prec) d1
   if r ≥ 10 ^ (prec + 1) then (natDigits (r / 10), e10 + 1) else (natDigits r, e10)
 
 /-- `toExpL bits prec = (text, exp)` where Rust's `format!("{:.prec$e}", f)` prints
@@ -217,7 +217,9 @@ def shortest (bits : Nat) (tieEven : Bool := false) : List Nat × Int :=
   if isZero bits then ([0], 0) else
   let (d, k) := shortestInt bits tieEven
   let ds := natDigits d
-  (stripTrailingZeros ds, k + (ds.length : Int) - 1)
+  let sig := stripTrailingZeros ds
+  -- `d > 0`, so `sig` is never empty; the guard makes that hold by construction
+  (if sig.isEmpty then [0] else sig, k + (ds.length : Int) - 1)
 
 /-- Rust `format!("{:e}", f)` for finite `f`, split at the `e`: `(text, exp)`. -/
 def shortestExpL (bits : Nat) : List Nat × Int :=
